@@ -409,7 +409,7 @@ def jobs_for(prop, tier):
         return [j for j in jobs_option_below(tier) if j[1][3] == 'combinations'] + jobs_combinations(tier)
     if prop == 'C03':
         return jobs_c03(tier) + jobs_option_reduce(tier) + jobs_axis(tier, ('reduce',))
-    return {'C02': jobs_c02, 'C03': jobs_c03, 'C04': jobs_c04, 'C06': (lambda t: jobs_c06(t) + jobs_axis(t, ('sort', 'argsort'))), 'C08': (lambda t: jobs_c08(t) + jobs_numpy(t) + jobs_union(t) + jobs_reverse_merge(t) + jobs_record_merge(t) + jobs_list_merge(t) + [j for j in jobs_record_named(t) if j[0] is h_record_mergemany_named]), 'C17': jobs_c17, 'C12': jobs_numpy, 'C10': (lambda t: jobs_c10(t) + [j for j in jobs_record_named(t) if j[0] is h_record_field_key] + jobs_project(t) + [j for j in jobs_option_below(t) if j[1][3] == 'getitem_field']), 'C05': jobs_c05, 'C09': jobs_c09}.get(prop, lambda t: [])(tier)
+    return {'C02': jobs_c02, 'C03': jobs_c03, 'C04': jobs_c04, 'C06': (lambda t: jobs_c06(t) + jobs_axis(t, ('sort', 'argsort')) + jobs_numpy_sort(t)), 'C08': (lambda t: jobs_c08(t) + jobs_numpy(t) + jobs_union(t) + jobs_reverse_merge(t) + jobs_record_merge(t) + jobs_list_merge(t) + [j for j in jobs_record_named(t) if j[0] is h_record_mergemany_named]), 'C17': jobs_c17, 'C12': jobs_numpy, 'C10': (lambda t: jobs_c10(t) + [j for j in jobs_record_named(t) if j[0] is h_record_field_key] + jobs_project(t) + [j for j in jobs_option_below(t) if j[1][3] == 'getitem_field']), 'C05': jobs_c05, 'C09': jobs_c09}.get(prop, lambda t: [])(tier)
 
 
 # ------------------------------------------------------------------------------------------------ C01: getitem_next of list nodes
@@ -3624,4 +3624,265 @@ def jobs_project(tier):
     for cls in ('ListOffsetArray64', 'ListArray64', 'RegularArray'):
         for d in (regs if cls == 'RegularArray' else shapes):
             js.append((h_list_project, (cls, d), 1800))
+    return js
+
+
+# ------------------------------------------------------------------------------------------------ C06: NumpyArray::sort_next / argsort_next (the leaf of every sort)
+NP_DTYPES = {   # name -> (util::dtype value, element kind, itemsize, format char, signedness)
+    'bool': (1, ('i', 8), 1, '?', 'u'), 'int8': (2, ('i', 8), 1, 'b', 's'), 'int16': (3, ('i', 16), 2, 'h', 's'), 'int32': (4, ('i', 32), 4, 'i', 's'), 'int64': (5, ('i', 64), 8, 'l', 's'),
+    'uint8': (6, ('i', 8), 1, 'B', 'u'), 'uint16': (7, ('i', 16), 2, 'H', 'u'), 'uint32': (8, ('i', 32), 4, 'I', 'u'), 'uint64': (9, ('i', 64), 8, 'L', 'u'),
+    'float32': (11, ('f', 32), 4, 'f', 'f'), 'float64': (12, ('f', 64), 8, 'd', 'f')}
+
+
+def build_numpy1d(nc, name, n, dtype):
+    """contiguous one-dimensional NumpyArray of the given dtype over a symbolic buffer -> (this, element terms)"""
+    from .cpp01 import struct_of
+    code, kind, isz, fmt, sgn = NP_DTYPES[dtype]
+    mod = module_of(SRC['NA'])
+    fo, sz, al, fields = mod.types.struct_layout(struct_of(mod, '_ZNK7awkward10NumpyArray6lengthEv'))
+    data = nc.m.array(name + '_data', kind, max(1, n), const=True)
+    esort = (z3.Float32() if kind[1] == 32 else z3.Float64()) if kind[0] == 'f' else z3.BitVecSort(kind[1])
+    a0 = z3.Array(name + '_data', z3.BitVecSort(64), esort)
+    nc.m.record(name + '_shape', {0: (BV(n), 8)}, const=True)
+    nc.m.record(name + '_strides', {0: (BV(isz), 8)}, const=True)
+    cells = nc.content_header(name, nc.vptr_of('N7awkward10NumpyArrayE', 'NA'))
+    cells.update({fo[1]: (data, 8), fo[1] + 8: (NULL, 8), fo[2]: (BV(0, 32), 4),
+                  fo[4]: (Ptr(name + '_shape', 0), 8), fo[4] + 8: (Ptr(name + '_shape', 8), 8), fo[4] + 16: (Ptr(name + '_shape', 8), 8),
+                  fo[5]: (Ptr(name + '_strides', 0), 8), fo[5] + 8: (Ptr(name + '_strides', 8), 8), fo[5] + 16: (Ptr(name + '_strides', 8), 8),
+                  fo[6]: (BV(0), 8), fo[7]: (BV(isz), 8),
+                  fo[8]: (Ptr(name, fo[8] + 16), 8), fo[8] + 8: (BV(1), 8), fo[8] + 16: (BV(ord(fmt), 8), 1), fo[8] + 17: (BV(0, 8), 1),
+                  fo[9]: (BV(code, 32), 4)})
+    this = nc.m.record(name, cells, const=True)
+    xs = [z3.Select(a0, BV(i)) for i in range(n)]
+    for x in xs:
+        if dtype == 'bool':
+            nc.m.assume(z3.ULE(x, 1))
+    return this, xs, fo
+
+
+def _before(x, y, sgn, ascending):
+    """strictly before in the documented order: NaN first in both directions, then ascending / descending"""
+    if sgn == 'f':
+        nx, ny = z3.fpIsNaN(x), z3.fpIsNaN(y)
+        lt = z3.fpLT(x, y) if ascending else z3.fpGT(x, y)
+        return z3.And(z3.Not(ny), z3.Or(nx, lt))
+    if sgn == 's':
+        return (x < y) if ascending else (x > y)
+    return z3.ULT(x, y) if ascending else z3.UGT(x, y)
+
+
+def _same_key(x, y, sgn):
+    if sgn == 'f':
+        return z3.Or(z3.fpEQ(x, y), z3.And(z3.fpIsNaN(x), z3.fpIsNaN(y)))
+    return x == y
+
+
+@guard
+def h_numpy_sort(dtype, parents, ascending, stable, arg):
+    """NumpyArray::sort_next / argsort_next on a one-dimensional contiguous array: the groups are the runs of equal parents; sort: every group of the
+    answer is a rearrangement of the same group of the input, ordered as requested (NaN first), and no value crosses a group boundary; argsort:
+    group-local positions that realise that order (equal keys in input order when stable)"""
+    import itertools as _it
+    parents = tuple(parents)
+    n = len(parents)
+    code, kind, isz, fmt, sgn = NP_DTYPES[dtype]
+    nc = NodeCtx(['NA', 'IDX', 'CNT', 'UTL', 'KD', 'IDS', 'RA'], [], unwind=max(64, 8 * n + 60))
+    from .c06 import stub_new
+    s_new0 = nc.m.eng.stubs['_Znwm']
+
+    def s_new_mixed(eng, fr, ins, st, name, argv):
+        # buffers allocated inside the kernels / libstdc++ algorithms are plain byte buffers (as in the kernel-level C06 harness); C++ objects
+        # created by the library's own methods stay records
+        fn = fr.f.name
+        if 'awkward_sort' in fn or 'awkward_argsort' in fn or 'awkward_quick' in fn or fn.startswith('_ZSt') or fn.startswith('_ZNSt'):
+            return stub_new(eng, fr, ins, st, name, argv)
+        return s_new0(eng, fr, ins, st, name, argv)
+    nc.m.eng.stubs.update({'_ZnwmRKSt9nothrow_t': stub_new, '_Znwm': s_new_mixed})          # nothrow: std::stable_sort's temporary buffer (never NULL here)
+    this, xs, fo = build_numpy1d(nc, 'node', n, dtype)
+    if sgn == 'f' and not stable:
+        # the unstable kernel (quick_sort) does not implement the NaN-first convention: recorded as a known finding of the kernel-level check
+        # (known_findings.json, awkward_quick_sort_float*); this harness covers the remaining inputs
+        for x in xs:
+            nc.m.assume(z3.Not(z3.fpIsNaN(x)))
+    groups = []
+    for i, p in enumerate(parents):
+        if i == 0 or p != parents[i - 1]:
+            groups.append([])
+        groups[-1].append(i)
+    outlength = (max(parents) + 1) if parents else 0
+
+    def index64(name, vals):
+        arr = z3.K(z3.BitVecSort(64), BV(0))
+        for i, v in enumerate(vals):
+            arr = z3.Store(arr, BV(i), BV(v))
+        d = nc.m.array(name + '_data', ('i', 64), max(1, len(vals)), const=True, arr=arr)
+        cells = {}
+        nc.index_cells(cells, 0, d, BV(0), BV(len(vals)))
+        return nc.m.record(name, cells, const=True)
+    starts = index64('starts', [g[0] for g in groups])
+    pidx = index64('parentsidx', list(parents))
+    shifts = index64('shifts', [])
+    nc.m.record('ret', {})
+    asc, stb = z3.BitVecVal(1 if ascending else 0, 1), z3.BitVecVal(1 if stable else 0, 1)
+    if arg:
+        cands = [f for mod_ in nc.m.eng.mods for f in mod_.func_src if f.startswith('_ZNK7awkward10NumpyArray12argsort_nextE')]
+        out = nc.m.call(cands[0], [Ptr('ret', 0), this, BV(1), starts, shifts, pidx, BV(outlength), asc, stb])
+    else:
+        cands = [f for mod_ in nc.m.eng.mods for f in mod_.func_src if f.startswith('_ZNK7awkward10NumpyArray9sort_nextE')]
+        out = nc.m.call(cands[0], [Ptr('ret', 0), this, BV(1), starts, pidx, BV(outlength), asc, stb])
+    obls = [('does not raise', out.raised)]
+    # decode the result: a NumpyArray whose buffer holds n items of the input type (sort) / int64 (argsort)
+    rp = nc.m.cell('ret', 0)
+    cs = [(g, q) for g, q in nodeh.ptr_cases(rp) if q.obj is not None]
+    if len(cs) != 1:
+        raise Unsupported('result pointer has %d cases' % len(cs))
+    ro, rb = out.mem.o[cs[0][1].obj], cs[0][1].off
+    dp = ro.cells[rb + fo[1]][0]
+    dcs = [(g, q) for g, q in nodeh.ptr_cases(dp) if q.obj is not None]
+    if len(dcs) != 1:
+        raise Unsupported('result buffer pointer has %d cases' % len(dcs))
+    buf, boff = out.mem.o[dcs[0][1].obj], dcs[0][1].off
+    want_kind = ('i', 64) if arg else kind
+    if tuple(buf.kind) != tuple(want_kind):
+        obls.append(('the result buffer has the element type %s (it is %s)' % (want_kind, tuple(buf.kind)), z3.BoolVal(True)))
+        return mdischarge(nc.m, 'NumpyArray<%s>::%s parents=%s' % (dtype, 'argsort_next' if arg else 'sort_next', list(parents)), obls, [], replay=None)
+    ys = [z3.Select(buf.arr, z3.simplify(boff + i)) for i in range(n)]
+    shp = ro.cells[rb + fo[4]][0]
+    for g in groups:
+        tag = 'group at %d (%d items)' % (g[0], len(g))
+        if arg:
+            loc = [ys[i] for i in g]
+            m_ = len(g)
+            obls.append((tag + ': positions are group-local and form a rearrangement', z3.Not(z3.And([z3.And(p >= 0, p < m_) for p in loc] + [z3.Distinct(*loc) if m_ > 1 else z3.BoolVal(True)]))))
+
+            def key(p):
+                v = xs[g[0]]
+                for j in range(1, m_):
+                    v = z3.If(p == j, xs[g[j]], v)
+                return v
+            for a_ in range(m_ - 1):
+                ka, kb = key(loc[a_]), key(loc[a_ + 1])
+                obls.append((tag + ': consecutive positions are in the requested order', _before(kb, ka, sgn, ascending)))
+                if stable:
+                    obls.append((tag + ': equal keys keep their input order', z3.And(_same_key(ka, kb, sgn), loc[a_] > loc[a_ + 1])))
+        else:
+            ins_, outs_ = [xs[i] for i in g], [ys[i] for i in g]
+            eq = (lambda a_, b_: z3.fpToIEEEBV(a_) == z3.fpToIEEEBV(b_)) if sgn == 'f' else (lambda a_, b_: a_ == b_)
+            perm = z3.Or([z3.And([eq(outs_[i], ins_[pm[i]]) for i in range(len(g))] + [z3.BoolVal(True)]) for pm in _it.permutations(range(len(g)))])
+            if sgn == 'f':      # NaN payloads may differ after a move through a register: compare NaNs as one value
+                eq2 = lambda a_, b_: z3.Or(z3.fpToIEEEBV(a_) == z3.fpToIEEEBV(b_), z3.And(z3.fpIsNaN(a_), z3.fpIsNaN(b_)))
+                perm = z3.Or([z3.And([eq2(outs_[i], ins_[pm[i]]) for i in range(len(g))] + [z3.BoolVal(True)]) for pm in _it.permutations(range(len(g)))])
+            obls.append((tag + ': the group is a rearrangement of the same group of the input', z3.Not(perm)))
+            for a_ in range(len(g) - 1):
+                obls.append((tag + ': consecutive items are in the requested order', _before(outs_[a_ + 1], outs_[a_], sgn, ascending)))
+
+    def replay(model, ent):
+        raw = []
+        for x in xs:
+            if sgn == 'f' and z3.is_true(model.eval(z3.fpIsNaN(x), model_completion=True)):
+                raw.append(0x7fc00000 if kind[1] == 32 else 0x7ff8000000000000)          # fpToIEEEBV of a NaN is unspecified in a model
+                continue
+            v = model.eval(z3.fpToIEEEBV(x) if sgn == 'f' else x, model_completion=True)
+            raw.append(v.as_long())
+        return native_numpy_sort(dtype, raw, list(parents), outlength, ascending, stable, arg, groups)
+    return mdischarge(nc.m, 'NumpyArray<%s>::%s parents=%s %s %s' % (dtype, 'argsort_next' if arg else 'sort_next', list(parents), 'ascending' if ascending else 'descending', 'stable' if stable else 'unstable'),
+                      obls, [], replay=replay, timeout_ms=120000,
+                      extra=dict(bounds='%d items (any values; NaN included except for the unstable float sort, see known findings), parents %s concrete (case split)' % (n, list(parents))))
+
+
+_SORT_DRIVER = r"""
+#include <cstdio>
+#include <cstdlib>
+#include <cstring>
+#include <string>
+#include <vector>
+#include "awkward/array/NumpyArray.h"
+#include "awkward/Index.h"
+#include "awkward/kernel-dispatch.h"
+using namespace awkward;
+int main(int argc, char** argv) {
+  // argv: dtype itemsize fmt asc stable arg outlength n parents... raw...
+  util::dtype dt = (util::dtype)atoi(argv[1]); ssize_t isz = atoi(argv[2]); std::string fmt = argv[3];
+  bool asc = atoi(argv[4]) != 0, st = atoi(argv[5]) != 0, arg = atoi(argv[6]) != 0; int64_t outlength = atoll(argv[7]); int n = atoi(argv[8]);
+  Index64 parents(n);
+  std::vector<int64_t> starts_v;
+  for (int i = 0; i < n; i++) { parents.data()[i] = atoll(argv[9 + i]); if (i == 0 || parents.data()[i] != parents.data()[i - 1]) starts_v.push_back(i); }
+  Index64 starts((int64_t)starts_v.size()); for (size_t i = 0; i < starts_v.size(); i++) starts.data()[i] = starts_v[i];
+  Index64 shifts(0);
+  std::shared_ptr<void> ptr(malloc(n == 0 ? 8 : (size_t)(n * isz)), free);
+  for (int i = 0; i < n; i++) { unsigned long long raw = strtoull(argv[9 + n + i], nullptr, 10); memcpy((char*)ptr.get() + i * isz, &raw, (size_t)isz); }
+  std::vector<ssize_t> shape({(ssize_t)n}), strides({isz});
+  NumpyArray a(Identities::none(), util::Parameters(), ptr, shape, strides, 0, isz, fmt, dt, kernel::lib::cpu);
+  try {
+    ContentPtr r = arg ? a.argsort_next(1, starts, shifts, parents, outlength, asc, st) : a.sort_next(1, starts, parents, outlength, asc, st);
+    NumpyArray* o = dynamic_cast<NumpyArray*>(r.get());
+    ssize_t osz = o->itemsize();
+    for (int i = 0; i < n; i++) { unsigned long long raw = 0; memcpy(&raw, (char*)o->data() + i * osz, (size_t)osz); printf("%llu ", raw); }
+    printf("| %d\n", (int)osz);
+  } catch (std::exception& e) { printf("ERR %s\n", e.what()); }
+  fflush(stdout); _Exit(0);
+}
+"""
+
+
+def native_numpy_sort(dtype, raw, parents, outlength, ascending, stable, arg, groups):
+    import subprocess, os, struct, math
+    code, kind, isz, fmt, sgn = NP_DTYPES[dtype]
+    exe = fullnative.link_driver(_SORT_DRIVER, 'npsort')
+    env = dict(os.environ, ASAN_OPTIONS='detect_leaks=0:exitcode=86:allocator_may_return_null=1', UBSAN_OPTIONS='halt_on_error=1:exitcode=87')
+    r = subprocess.run([exe, str(code), str(isz), fmt, str(int(ascending)), str(int(stable)), str(int(arg)), str(outlength), str(len(parents))] + [str(p) for p in parents] + [str(v) for v in raw],
+                       capture_output=True, text=True, timeout=30, env=env, errors='replace')
+    line = (r.stdout.strip().splitlines() or [''])[-1]
+    payload = dict(dtype=dtype, data_bits=raw, parents=parents, ascending=ascending, stable=stable, argsort=arg, native=line)
+    if r.returncode != 0 or line.startswith('ERR') or '|' not in line:
+        return True, '%s of %s data %s (raw bits), parents %s: native library fails: %s %s' % ('argsort' if arg else 'sort', dtype, raw, parents, line, r.stderr[-200:]), payload
+    got = [int(t) for t in line.split('|')[0].split()]
+    bits = kind[1]
+
+    def val(b):
+        if sgn == 'f':
+            return struct.unpack('<f' if bits == 32 else '<d', struct.pack('<I' if bits == 32 else '<Q', b))[0]
+        return b - (1 << bits) if sgn == 's' and b >= 1 << (bits - 1) else b
+
+    def keyf(v):          # NaN first, then the requested direction
+        if isinstance(v, float) and math.isnan(v):
+            return (0, 0)
+        return (1, v if ascending else -v)
+    bad = None
+    for g in groups:
+        ins_ = [val(raw[i]) for i in g]
+        if arg:
+            loc = [got[i] - (1 << 64) if got[i] >= 1 << 63 else got[i] for i in g]
+            if sorted(loc) != list(range(len(g))):
+                bad = 'positions %s of the group at %d are not a rearrangement of 0..%d' % (loc, g[0], len(g) - 1); break
+            keys = [keyf(ins_[p]) for p in loc]
+            if any(keys[i] > keys[i + 1] for i in range(len(keys) - 1)):
+                bad = 'positions %s of the group at %d do not realise the order' % (loc, g[0]); break
+            if stable and any(keys[i] == keys[i + 1] and loc[i] > loc[i + 1] for i in range(len(keys) - 1)):
+                bad = 'equal keys of the group at %d lose their input order (%s)' % (g[0], loc); break
+        else:
+            outs_ = [val(got[i]) for i in g]
+            canon = lambda l: sorted(('nan' if isinstance(v, float) and math.isnan(v) else repr(v)) for v in l)
+            if canon(ins_) != canon(outs_):
+                bad = 'group at %d: %s is not a rearrangement of %s' % (g[0], outs_, ins_); break
+            keys = [keyf(v) for v in outs_]
+            if any(keys[i] > keys[i + 1] for i in range(len(keys) - 1)):
+                bad = 'group at %d: %s is not in the requested order' % (g[0], outs_); break
+    if bad:
+        return True, '%s of %s data %s, parents %s: native library gives %s: %s' % ('argsort' if arg else 'sort', dtype, [val(b) for b in raw], parents, line, bad), payload
+    return False, 'native library agrees (%s)' % line, payload
+
+
+def jobs_numpy_sort(tier):
+    js = []
+    dts = ['int64', 'int8', 'uint32', 'float64', 'bool'] if tier == 'quick' else sorted(NP_DTYPES)
+    Ps = [(0, 0, 1)] if tier == 'quick' else [(0, 0, 1), (0, 0, 0), (1, 1, 2, 2), (0,), ()]
+    for dt in dts:
+        for P in Ps:
+            if NP_DTYPES[dt][4] == 'f' and max([P.count(g) for g in set(P)] + [0]) > 2:
+                continue          # three floating-point keys through the inlined sort do not finish in z3 (stated bound: float groups of <= 2)
+            for arg in (False, True):
+                for asc in (True, False):
+                    for st in ((True, False) if tier != 'quick' or dt in ('int64', 'float64') else (True,)):
+                        js.append((h_numpy_sort, (dt, P, asc, st, arg), 1800))
     return js
